@@ -140,9 +140,11 @@ Qed.
 Lemma run_op_run o s s' ob : run_op o s = Some (s', ob) -> exists ls, run step s ls = Some s'.
 Proof.
   destruct o; cbn [run_op].
-  - destruct (op_modify (Some x) s) as [[s1 b]|] eqn:E; [|discriminate]. intros H; injection H as <- _.
+  - destruct (op_modify (CMerge x) s) as [[s1 b]|] eqn:E; [|discriminate]. intros H; injection H as <- _.
     eapply op_modify_run; exact E.
-  - destruct (op_modify None s) as [[s1 b]|] eqn:E; [|discriminate]. intros H; injection H as <- _.
+  - destruct (op_modify CNoop s) as [[s1 b]|] eqn:E; [|discriminate]. intros H; injection H as <- _.
+    eapply op_modify_run; exact E.
+  - destruct (op_modify CClear s) as [[s1 b]|] eqn:E; [|discriminate]. intros H; injection H as <- _.
     eapply op_modify_run; exact E.
   - destruct (op_drop_sender s) as [s1|] eqn:E; [|discriminate]. intros H; injection H as <- _.
     eapply op_drop_sender_run; exact E.
@@ -323,6 +325,20 @@ Proof.
     + unfold op_modify in Hop. cbn in Hop. injection Hop as <- <-.
       rewrite (Hpk eq_refl) in *. eexists; split; [cbn; reflexivity|]. split; [reflexivity|].
       split; [exact C'|]. repeat split; cbn; auto; intros; discriminate.
+  - (* OClear *)
+    destruct sal; [|discriminate]. destruct ral.
+    + unfold op_modify in Hop. cbn in Hop.
+      destruct prk; unfold waiter_link in Hl; cbn in Hl.
+      * destruct (Hwk eq_refl) as [Hb1 Hb2].
+        destruct Hl as [-> | ->]; destruct pend as [|y pend]; cbn in Hop; injection Hop as <- <-;
+          (eexists; split; [cbn; reflexivity|]); (split; [reflexivity|]);
+          (split; [exact C'|]); repeat split; cbn; auto; try lia; try (intros; discriminate).
+      * subst w. destruct pend as [|y pend]; cbn in Hop; injection Hop as <- <-;
+          (eexists; split; [cbn; reflexivity|]); (split; [reflexivity|]);
+          (split; [exact C'|]); repeat split; cbn; auto; try (intros; discriminate).
+    + unfold op_modify in Hop. cbn in Hop. injection Hop as <- <-.
+      rewrite (Hpk eq_refl) in *. eexists; split; [cbn; reflexivity|]. split; [reflexivity|].
+      split; [exact C'|]. repeat split; cbn; auto; intros; discriminate.
   - (* ODropSender *)
     destruct sal; [|discriminate]. unfold op_drop_sender in Hop. cbn in Hop.
     destruct ral; [destruct prk|]; unfold waiter_link in Hl; cbn in Hl.
@@ -419,7 +435,7 @@ Lemma sim_avail o s a wk ob a' : Sim s a -> spec_op o a wk = Some (ob, a') ->
 Proof.
   intros (C & Hsl & Hsd & Hsp & Hrd & Hrp & Hwk & Hpk) Hspec.
   destruct o; cbn [spec_op run_op] in *.
-  4: { (* OPoll *)
+  5: { (* OPoll *)
     destruct (a_ralive a) eqn:Er; [|discriminate].
     destruct (poll_spec s C) as (s2 & Hres & _).
     { rewrite Hsp. destruct (a_salive a); auto. }
@@ -429,6 +445,7 @@ Proof.
   all: destruct s as [sl p w sd rd sp rp mg dl sr wk0 wo]; destruct a as [pend sal ral prk base];
     cbn [slot permit wtr sender_dropped receiver_dropped s_pc r_pc merged delivered send_results wakes woken
          a_pend a_salive a_ralive a_parked a_base] in *; subst sl sd sp rd rp.
+  - destruct sal; [|discriminate]. unfold op_modify. destruct ral; destruct pend; cbn; eexists; eexists; reflexivity.
   - destruct sal; [|discriminate]. unfold op_modify. destruct ral; destruct pend; cbn; eexists; eexists; reflexivity.
   - destruct sal; [|discriminate]. unfold op_modify. destruct ral; destruct pend; cbn; eexists; eexists; reflexivity.
   - destruct sal; [|discriminate]. unfold op_drop_sender. cbn. eexists; eexists; reflexivity.
@@ -470,4 +487,79 @@ Qed.
 Lemma c19_model_total os : spec_avail os a_init = true -> exists tr, run_ops os init = Some tr.
 Proof.
   apply (run_ops_total os init a_init a_init); [apply sim_init|]. unfold same_but_base. auto.
+Qed.
+
+(* ---------------- closure classes ---------------- *)
+
+(* the updates handed to merging closures along a schedule, in order *)
+Fixpoint merged_labels (ls : list label) : list upd :=
+  match ls with
+  | [] => []
+  | SMerge (CMerge x) :: r => x :: merged_labels r
+  | _ :: r => merged_labels r
+  end.
+Fixpoint no_clear (ls : list label) : bool :=
+  match ls with
+  | [] => true
+  | SMerge CClear :: _ => false
+  | _ :: r => no_clear r
+  end.
+
+Lemma step_merged s lb s' : step s lb = Some s' ->
+  merged s' = match lb with SMerge c => merged_after (merged s) (slot s) c | _ => merged s end.
+Proof.
+  destruct s as [sl p w sd rd sp rp mg dl sr wk wo]. destruct lb; cbn.
+  - destruct sp; try discriminate. destruct rd; intros H; injection H as <-; reflexivity.
+  - destruct sp; try discriminate. intros H; injection H as <-. destruct (merge_slot sl c); reflexivity.
+  - destruct sp; try discriminate. intros H; injection H as <-. destruct w; reflexivity.
+  - destruct sp; try discriminate. intros H; injection H as <-. reflexivity.
+  - destruct sp; try discriminate. intros H; injection H as <-. destruct w; reflexivity.
+  - destruct rp; try discriminate; destruct p; intros H; injection H as <-; reflexivity.
+  - destruct rp; try discriminate. destruct sl; intros H; injection H as <-; reflexivity.
+  - destruct rp; try discriminate. intros H; injection H as <-. reflexivity.
+  - destruct rp; try discriminate. intros H; injection H as <-. reflexivity.
+  - destruct rp as [| |f|f|f|f v|f| |]; try discriminate. destruct f; destruct w; cbn; intros H; injection H as <-; reflexivity.
+  - destruct rp as [| |f|f|f|f v|f| |]; try discriminate.
+    + destruct f; [destruct w; try discriminate|]; intros H; injection H as <-; reflexivity.
+    + destruct w; try discriminate; intros H; injection H as <-; reflexivity.
+  - destruct rp; try discriminate. destruct w; cbn; intros H; injection H as <-; reflexivity.
+  - destruct rp; try discriminate. intros H; injection H as <-. reflexivity.
+  - destruct rp; try discriminate. intros H; injection H as <-. reflexivity.
+Qed.
+
+(* with inflationary closures only (merge / no-op), [merged] is everything ever merged in *)
+Lemma merged_inflationary ls : forall s s', run step s ls = Some s' -> no_clear ls = true ->
+  merged s' = merged s ++ merged_labels ls.
+Proof.
+  induction ls as [|lb ls IH]; intros s s' Hr Hn; cbn [run] in Hr.
+  - injection Hr as <-. cbn. rewrite app_nil_r. reflexivity.
+  - destruct (step s lb) as [s1|] eqn:E; [|discriminate].
+    pose proof (step_merged _ _ _ E) as Hm.
+    assert (Hn' : no_clear ls = true) by (destruct lb as [|[| |]| | | | | | | | | | | |]; cbn in Hn; try discriminate; exact Hn).
+    rewrite (IH _ _ Hr Hn'), Hm.
+    destruct lb as [|[x| |]| | | | | | | | | | | |]; cbn [merged_after merged_labels]; try reflexivity.
+    + rewrite <- app_assoc. reflexivity.
+    + discriminate.
+Qed.
+
+Lemma c19_inflationary ls s : run step init ls = Some s -> no_clear ls = true ->
+  delivered_values s ++ in_flight s ++ slot_list s = merged_labels ls.
+Proof.
+  intros Hr Hn. rewrite (c19_no_loss_dup s) by (exists ls; exact Hr).
+  rewrite (merged_inflationary _ _ _ Hr Hn). reflexivity.
+Qed.
+
+(* a clearing closure retracts exactly what is pending in the slot: nothing delivered or in
+   flight is touched, and no notification is issued *)
+Lemma c19_clear_retracts s s' : reachable step init s -> step s (SMerge CClear) = Some s' ->
+  slot s' = None /\ merged s' ++ slot_list s = merged s /\ delivered s' = delivered s /\
+  in_flight s' = in_flight s /\ wakes s' = wakes s /\ permit s' = permit s /\ wtr s' = wtr s /\
+  s_pc s' = SIdle /\ send_results s' = send_results s ++ [true].
+Proof.
+  intros Hr Hs. pose proof (c19_no_loss_dup s Hr) as He.
+  destruct s as [sl p w sd rd sp rp mg dl sr wk wo]. cbn in Hs. destruct sp; try discriminate.
+  injection Hs as <-. unfold delivered_values, in_flight, slot_list in *. cbn in *.
+  repeat split; try reflexivity.
+  rewrite <- He. unfold drop_last. rewrite app_assoc, app_length, Nat.add_sub.
+  rewrite firstn_app, Nat.sub_diag, firstn_all. cbn [firstn]. rewrite app_nil_r. reflexivity.
 Qed.
